@@ -13,6 +13,7 @@ pub struct CaseResult {
 
 pub fn run_case(case: &Case, opts: ExecOpts) -> CaseResult {
     obs::begin_case();
+    obs::set_quarantine(!opts.reuse_addresses);
     let mut ex = Exec::new(opts);
     let r = std::panic::catch_unwind(std::panic::AssertUnwindSafe(|| ex.run_case(case)));
     if let Err(p) = r {
